@@ -36,6 +36,8 @@ func runC14(c *Ctx, pr *PropertyRun) {
 	c14PerResource(c, pr)
 	c14Close(c, pr)
 	c13Recursion(c, pr, "C14", entries)
+	// what the decoders reached from the client do with short or empty texts
+	c13Guards(c, pr, "C14", entries)
 	c13Panics(c, pr, "C14", entries, map[string]string{
 		"(internal.Depth).String":             "every call site passes one of the three Depth constants (checked: constant propagation through phis)",
 		"(*internal.RawXMLValue).TokenReader": "marshal-only values are created only by EncodeRawXMLElement and only ever encoded; responses are decoded into fresh values",
